@@ -3,12 +3,14 @@
 package model
 
 import (
+	"encoding/hex"
 	"encoding/json"
 	"fmt"
 	"math"
 	"reflect"
 	"strconv"
 	"time"
+	"unicode/utf8"
 )
 
 // Val is a JSON-serialisable description of a Go value. It is the only form in
@@ -280,4 +282,49 @@ func JSON(x any) string {
 		panic(err)
 	}
 	return string(b)
+}
+
+// Strings that are not valid UTF-8 cannot travel through JSON; they are saved
+// hex-encoded in a side field so that a replayed case is byte-identical.
+
+type valWire struct {
+	T string `json:"t"`
+	S string `json:"s,omitempty"`
+	X string `json:"x,omitempty"`
+	L []Val  `json:"l,omitempty"`
+	M []KV   `json:"m,omitempty"`
+}
+
+func (v Val) MarshalJSON() ([]byte, error) {
+	w := valWire{T: v.T, S: v.S, L: v.L, M: v.M}
+	if !utf8.ValidString(v.S) {
+		w.S, w.X = "", hex.EncodeToString([]byte(v.S))
+	}
+	return json.Marshal(w)
+}
+
+func (v *Val) UnmarshalJSON(b []byte) error {
+	var w valWire
+	if err := json.Unmarshal(b, &w); err != nil {
+		return err
+	}
+	*v = Val{T: w.T, S: w.S, L: w.L, M: w.M}
+	if w.X != "" {
+		raw, err := hex.DecodeString(w.X)
+		if err != nil {
+			return err
+		}
+		v.S = string(raw)
+	}
+	return nil
+}
+
+// RoundTrip passes a case through its JSON form, so that what is executed is
+// exactly what a replay file would contain.
+func RoundTrip[C any](c C) C {
+	var out C
+	if err := json.Unmarshal([]byte(JSON(c)), &out); err != nil {
+		panic(fmt.Sprintf("model: case does not survive JSON: %v", err))
+	}
+	return out
 }
